@@ -127,4 +127,45 @@ theorem C03_attestation_window {W : World} {v : View} {sibs : List View} {a : Au
     (h : ClaimOk W (attDesc W v.tok.id) (attCandidates v.tok sibs) a) :
     ∀ u ∈ a.spine, InWindow W u.tok := claimOk_window h
 
+/-! ## the window over time (what the `access3seq` / `serve3seq` histories rely on) -/
+
+/-- once expired, expired at every later second -/
+theorem C03_expired_mono (exp : Option Int) (t t' : Int) (h : t ≤ t')
+    (he : isExpired exp t = true) : isExpired exp t' = true := by
+  cases exp with
+  | none => simp [isExpired] at he
+  | some e => simp only [isExpired, decide_eq_true_eq] at he ⊢; omega
+
+/-- once no longer too early, never too early again -/
+theorem C03_tooEarly_anti (nbf : Int) (t t' : Int) (h : t ≤ t')
+    (he : isTooEarly nbf t = false) : isTooEarly nbf t' = false := by
+  unfold isTooEarly at he ⊢
+  by_cases hz : nbf = 0
+  · subst hz; simp
+  · have h1 : (nbf != 0) = true := by simpa using hz
+    simp only [h1, Bool.true_and, decide_eq_false_iff_not] at he ⊢
+    omega
+
+/-- the seconds at which a token is inside its window form an interval: inside at `t₁` and at `t₃`
+means inside at every second between them -/
+theorem C03_window_convex (W : World) (t : Token) (t₁ t₂ t₃ : Int) (h12 : t₁ ≤ t₂) (h23 : t₂ ≤ t₃)
+    (h1 : InWindow { W with now := t₁ } t) (h3 : InWindow { W with now := t₃ } t) :
+    InWindow { W with now := t₂ } t := by
+  unfold InWindow at *
+  simp only at h1 h3 ⊢
+  refine ⟨?_, C03_tooEarly_anti t.nbf t₁ t₂ h12 h1.2⟩
+  cases he : isExpired t.exp t₂ with
+  | false => rfl
+  | true => rw [C03_expired_mono t.exp t₂ t₃ h23 he] at h3; exact absurd h3.1 (by simp)
+
+/-- a token with both bounds is inside its window exactly on `(nbf, exp)`, both ends excluded as the
+implementation's comparisons are -/
+theorem C03_window_exact (W : World) (t : Token) (e : Int) (hexp : t.exp = some e) (hn : t.nbf ≠ 0) :
+    InWindow W t ↔ t.nbf < W.now ∧ W.now < e := by
+  unfold InWindow isExpired isTooEarly
+  rw [hexp]
+  have h1 : (t.nbf != 0) = true := by simpa using hn
+  simp only [h1, Bool.true_and, decide_eq_false_iff_not]
+  omega
+
 end V
